@@ -138,6 +138,7 @@ def run(tier, seed):
         # registered with the notice of the failed copy must not sleep on it
         ng = 3 if tier == "quick" else 12
         gap_hangs = 0
+        owner_failed = 0
         shim_ok = build_fault_shim()
         if not shim_ok:
             viol.append({"world": "gap", "why": "fault shim did not build", "klass": None})
@@ -160,9 +161,13 @@ def run(tier, seed):
                              "sy -H hung (killed after 12 s)", "klass": None})
             else:
                 d_snap, s_snap = world.snapshot(dst), world.snapshot(src)
-                okm = names[1:]
-                if len(set(d_snap[p]["ino"] for p in okm if p in d_snap)) > 1 or any(p not in d_snap or d_snap[p].get("sha") != s_snap[p]["sha"] for p in okm) or rr["rc"] == 0:
-                    viol.append({"world": "gap%d" % i, "why": "after the late failure of the first copy: members missing, not sharing an inode, or exit status 0 (rc=%s)" % rr["rc"], "klass": None})
+                # the injected fault hits the OPEN of a_first/x.dat: when that member happens to be the first to claim, its copy fails
+                # (exit status non-zero, every other member must be there); when another member claimed first, x.dat is hard-linked
+                # (no open) and the run succeeds with the whole group in place
+                okm = names[1:] if rr["rc"] != 0 else names
+                if len(set(d_snap[p]["ino"] for p in okm if p in d_snap)) > 1 or any(p not in d_snap or d_snap[p].get("sha") != s_snap[p]["sha"] for p in okm):
+                    viol.append({"world": "gap%d" % i, "why": "after the late failure of the first copy: members missing or not sharing an inode (rc=%s)" % rr["rc"], "klass": None})
+                owner_failed += 1 if rr["rc"] != 0 else 0
             shutil.rmtree(base, ignore_errors=True)
     # model-level exploration statistics (kernel-evaluated), recorded as support
     stats = vlib.coq_eval_list("From Coq Require Import List. Import ListNotations.\nFrom SyModel Require Import Hardlink.",
@@ -174,6 +179,7 @@ def run(tier, seed):
     res.cov["fault_runs_hung"] = hangs
     res.cov["late_failure_gap_runs"] = ng
     res.cov["late_failure_gap_runs_hung"] = gap_hangs
+    res.cov["late_failure_gap_runs_where_the_failing_member_owned"] = owner_failed
     res.cov["known_finding_hits"] = {k: len(v) for k, v in hits.items()}
     res.cov["rule"] = ("source trees with 1-3 hard-link groups of 2-5 members (sizes 10 B .. 3 MB, members in different directories) plus plain files, worker counts 1/2/4/8/16; "
                        "each world: create, re-run, update through one member; inode classes and contents of the destination compared with the source; plus a natural fault "
